@@ -47,7 +47,9 @@ def run(ctx):
     ctx.coverage["rule"] = ("layered DAGs of 2-6 targets, 60% of them with an output check (`test -f ext/T.flag` or `cat` + expected_output), "
                             "the condition established by the target's own command or from outside; edits: destroy / establish / spoil the "
                             "condition, add / remove checks, command exits non-zero / exceeds its 300ms timeout / stops writing an output, "
-                            "content and command changes; non-trivial = distinct history with >=2 builds, one executing and one with a hit")
+                            "content and command changes; 1-3 checks per target mixing exit-status-only and expected_output checks in every order; outputs "
+                            "missing first / middle / last incl. dir:: outputs that were never created; scripted cycle condition destroyed -> failing run -> "
+                            "condition re-established from outside; non-trivial = distinct history with >=2 builds, one executing and one with a hit")
     recs = H.run_both(ctx, hists, "c14")
     if recs is None:
         return
